@@ -186,7 +186,7 @@ def oracle_agc(case, out, gain):
         else:
             if not np.all(np.isfinite(out[i])):
                 continue        # zero gain sample (epsilon = 0): outside the stated domain
-            if np.max(np.abs(out[i] * gain[i] - x[i])) > (1e-5 if case.get("dtype") == "f32" else TOL) * max(1.0, np.max(np.abs(x[i]))):
+            if np.max(np.abs(out[i] * gain[i] - x[i])) > (1e-4 if case.get("dtype") == "f32" else TOL) * max(1.0, np.max(np.abs(x[i]))):
                 bad.append("agc: output * gain differs from the input")
     return bad[:1]
 
@@ -895,7 +895,7 @@ def run(ctx):
                 dist["agc_div0_skipped"] += 1
                 return
             compare_q(ctx, "agc (output, gain)", m, list(out.ravel()) + list(gain.ravel()), case,
-                      tol=1e-5 if case.get("dtype") == "f32" else TOL)
+                      tol=1e-4 if case.get("dtype") == "f32" else TOL)
         checks.append(chk)
         if len(samples) < 4 and case["nc"] <= 2 and case["ns"] <= 4:
             samples.append({"call": "agc", "wl": case["wl"], "si": case["si"], "epsilon": "%d/%d" % (case["en"], case["ed"]),
